@@ -58,7 +58,7 @@ pub fn worker_main(ctx: Ctx) {
                 let skip: Vec<u64> = req.get("skip").and_then(|u| u.as_array()).map(|a| a.iter().filter_map(|x| x.as_u64()).collect()).unwrap_or_default();
                 let ctx2 = ctx.clone();
                 let out2 = out.clone();
-                let h = std::thread::Builder::new().stack_size(JOB_STACK).spawn(move || {
+                let h = std::thread::Builder::new().stack_size(eng.stack_bytes()).spawn(move || {
                     let mut progress = |idx: u64, mk: &dyn Fn() -> Value| -> bool {
                         if skip.contains(&idx) {
                             return false;
@@ -84,7 +84,7 @@ pub fn worker_main(ctx: Ctx) {
             "exec" => {
                 let case = req.get("case").cloned().unwrap_or(Value::Null);
                 let ctx2 = ctx.clone();
-                let h = std::thread::Builder::new().stack_size(JOB_STACK).spawn(move || eng.exec(&ctx2, &case));
+                let h = std::thread::Builder::new().stack_size(eng.stack_bytes()).spawn(move || eng.exec(&ctx2, &case));
                 match h.map(|h| h.join()) {
                     Ok(Ok(vs)) => send(&out, json!({"done": "exec", "violations": vs.iter().map(|v| v.to_json()).collect::<Vec<_>>()})),
                     Ok(Err(_)) => {
